@@ -18,7 +18,9 @@ def value(k, level):
     return {"k": k, "level": level}
 
 
-def untag(v):
+def untag(v, k=0):
+    if v is None:
+        return [k, 0]
     if isinstance(v, str):
         _, k, lv = v.split(":")
         return [int(k), int(lv)]
@@ -32,9 +34,9 @@ def _build(level, parent):
     if spec["kind"] == "disk":
         p = OnDiskPartition()
         for k in spec["own"]:
-            p[KEYNAMES[k]] = value(k, level)
+            p[KEYNAMES[k]] = None if k in spec.get("nul", ()) else value(k, level)
     else:
-        p = InMemoryPartition({KEYNAMES[k]: value(k, level) for k in spec["own"]})
+        p = InMemoryPartition({KEYNAMES[k]: (None if k in spec.get("nul", ()) else value(k, level)) for k in spec["own"]})
     if parent is not None:
         p._merge_parent = parent
     return p
